@@ -54,6 +54,9 @@ type svcSim struct {
 	pwOf     map[string][]byte // filename -> password it was last encrypted with
 	unloaded map[string]bool
 	names    []string
+	redo     func(svc *wallet.Service) error // repeats the last operation on another service (nil: result not a function of the arguments)
+	lastOpOK bool
+	redoIdempotent bool
 	scratch  int
 }
 
@@ -179,6 +182,7 @@ func sameStrMap(a, b map[string]string) (string, bool) {
 // one service operation; returns a label and the operation's error
 func (s *svcSim) doOp() (string, error) {
 	t := s.c.T
+	s.redo, s.redoIdempotent = nil, false
 	switch t.Pick("svc-op", 8, 8, 3, 3, 3, 3, 2, 2, 2, 2) {
 	case 0: // create
 		typ := []string{wallet.WalletTypeDeterministic, wallet.WalletTypeBip44, wallet.WalletTypeXPub, wallet.WalletTypeCollection}[t.Pick("wtype", 5, 4, 2, 1)]
@@ -217,6 +221,9 @@ func (s *svcSim) doOp() (string, error) {
 			name = fmt.Sprintf("w%d.wlt", t.Int("fixed-name-i", 4))
 		}
 		w, err := s.svc.CreateWallet(name, opts)
+		if !opts.Encrypt && !opts.Temp && name != "" { // a generated file name would differ on the second attempt
+			s.redo = func(svc *wallet.Service) error { _, e := svc.CreateWallet(name, opts); return e }
+		}
 		if err == nil {
 			fn := w.Filename()
 			s.names = append(s.names, fn)
@@ -235,7 +242,11 @@ func (s *svcSim) doOp() (string, error) {
 		if t.Chance("change-chain", 1, 4) {
 			o = append(o, wallet.OptionChange())
 		}
-		_, err := s.svc.NewAddresses(name, s.pickPw(name), o...)
+		pw := s.pickPw(name)
+		_, err := s.svc.NewAddresses(name, pw, o...)
+		if pw == nil {
+			s.redo = func(svc *wallet.Service) error { _, e := svc.NewAddresses(name, nil, o...); return e }
+		}
 		return "new-addresses " + name, err
 	case 2:
 		name := s.pickName()
@@ -243,7 +254,10 @@ func (s *svcSim) doOp() (string, error) {
 		return "scan-addresses " + name, err
 	case 3:
 		name := s.pickName()
-		return "label " + name, s.svc.UpdateWalletLabel(name, fmt.Sprintf("relabel-%d", t.Int("label", 5)))
+		lb := fmt.Sprintf("relabel-%d", t.Int("label", 5))
+		s.redo = func(svc *wallet.Service) error { return svc.UpdateWalletLabel(name, lb) }
+		s.redoIdempotent = true
+		return "label " + name, s.svc.UpdateWalletLabel(name, lb)
 	case 4:
 		name := s.pickName()
 		pw := s.pws[t.Int("pwi", 2)]
@@ -354,6 +368,7 @@ func runService(c *sim.Ctx) {
 		if c.Property == "C19" {
 			s.checkMemDisk(label, err, memBefore, memAfter, diskBefore, diskAfter)
 		}
+		s.lastOpOK = err == nil
 		if c.Property == "C20" && len(s.fs.ops) > 0 {
 			s.checkCrashStates(label, diskBefore, diskAfter)
 		}
@@ -469,8 +484,15 @@ func (s *svcSim) checkCrashStates(label string, diskBefore, diskAfter map[string
 		c.Count("desync.directory_unloadable_without_crash")
 		return
 	}
-	for _, st := range s.fs.crashStates() {
+	states := s.fs.crashStates()
+	retryAt := c.T.Int("svc-retry-state", 64)
+	for si, st := range states {
 		c.Count("crash.states")
+		if s.redo != nil && s.lastOpOK && si == retryAt%len(states) {
+			if s.retryAfterCrash(label, opKind, st, before, after) {
+				return
+			}
+		}
 		h := sha256.New()
 		var ns []string
 		for n := range st.files {
@@ -510,6 +532,55 @@ func (s *svcSim) checkCrashStates(label string, diskBefore, diskAfter map[string
 			}
 		}
 	}
+}
+
+// retryAfterCrash: the service restarts on the crash state, the client repeats the request that was interrupted,
+// the service restarts once more.  It must start, and the wallets must be those of the completed operation (or,
+// if the repeated request was refused, those the first restart found).  Only used for operations whose result
+// is a function of their arguments (no fresh encryption nonce).  Returns true when it recorded a violation.
+func (s *svcSim) retryAfterCrash(label, opKind string, st crashState, before, after map[string]string) bool {
+	c := s.c
+	s.scratch++
+	d := fmt.Sprintf("%s/retry%d", c.Dir, s.scratch)
+	materialise(d, st)
+	cfg := s.cfg
+	cfg.WalletDir = d
+	svc, err := wallet.NewService(cfg)
+	if err != nil {
+		return false // reported by the ordinary crash-state check
+	}
+	first := s.memView(svc)
+	rerr := s.redo(svc)
+	c.Count("fault.crash_recover_retry")
+	again, err := s.startFresh(d)
+	if err != nil {
+		c.Violate("crash-node-does-not-start", "wallet:"+opKind+":after-retry:"+classifyStartErr(err)+":"+stateKind(st.label), "crash during [%s] at [%s], restart, the same request again (%v), restart: the wallet service cannot start: %v", label, st.label, rerr, err)
+		return true
+	}
+	want := after
+	if rerr != nil {
+		want = first
+	} else if _, same := sameStrMap(nonTemp(first), nonTemp(before)); !same && !s.redoIdempotent {
+		// the interrupted operation had already taken effect and repeating it is not idempotent (it generates
+		// further addresses): what the second application yields is not something this oracle knows
+		c.Count("probe.retry_on_completed_nonidempotent_op_skipped")
+		return false
+	}
+	if what, ok := sameStrMap(nonTemp(want), nonTemp(again)); !ok {
+		c.Violate("crash-retry-content", "wallet:"+opKind+":"+stateKind(st.label), "crash during [%s] at [%s], restart, the same request again (%v), restart: the wallets are not those of the completed operation (%s)", label, st.label, rerr, what)
+		return true
+	}
+	return false
+}
+
+func nonTemp(m map[string]string) map[string]string {
+	out := map[string]string{}
+	for k, v := range m {
+		if !strings.HasPrefix(v, "temp:") {
+			out[k] = v
+		}
+	}
+	return out
 }
 
 // stateKind strips numbers from a crash-state label so that signatures are stable.
